@@ -4,8 +4,8 @@ PROP = {
     "gen_modules": ["ChunkTables", "Consts"],
     "oracle_prefix": "C12",
     "streams": [{"name": "broker", "harness": "umh_broker", "driver": "broker",
-                 # the shared thorough tier (~2M op lines) needs > 3000 s of CPU on a loaded machine
-                 "timeout": {"thorough": 10800}}],
+                 # the shared thorough tier (~2M op lines) can exceed the default 3000 s on a loaded machine
+                 "timeout": {"thorough": 6000}}],
     "assumptions": [
         "non-ordered mode only (enable_ordered_proxy = true is not modelled)",
         "HashMap-order dependent picks (which free proxies form a chunk, which free proxy replaces a failed one) are "
